@@ -89,6 +89,12 @@ func (tc *TarsClient) SendContext(ctx context.Context, req []byte) error {
 		return err
 	}
 
+	select {
+	case tc.sendQueue <- sendMsg{req: req}:
+		return nil
+	default:
+	}
+
 	// avoid full sendQueue that cause sending block
 	var timerC <-chan struct{}
 	if tc.config.WriteTimeout > 0 {
@@ -99,7 +105,7 @@ func (tc *TarsClient) SendContext(ctx context.Context, req []byte) error {
 	case <-timerC:
 		return errors.New("tars client write timeout")
 	case <-ctx.Done():
-		return errors.New("tars client send queue full: " + ctx.Err().Error())
+		return errors.New("tars client write timeout: " + ctx.Err().Error())
 	case tc.sendQueue <- sendMsg{req: req}:
 		return nil
 	}
